@@ -28,7 +28,9 @@ RULE = ("circuits on 1-6 qubits over every gate family, several registers, barri
         "sequences over arbitrary hashables incl. None for idle (and, as malformed input, non-idle) qubits, and automatic labelling; Pauli "
         "lists incl. non-identity on idle qubits; deterministic family: automatic labelling where a barrier (bridge, wide, full width, onto an "
         "otherwise untouched qubit) is the only instruction joining two groups of qubits, with registers / idle qubits / pre-placed cut gates, "
-        "and no-barrier / explicit-label controls; non-trivial = at least two partitions or a barrier; distinct by payload")
+        "and no-barrier / explicit-label controls; deterministic family: one gate of every cuttable two-qubit family spanning two partitions, written "
+        "with either qubit as its first operand (the cut terms, placed where the halves sit, must add up to the gate as written: exact two-qubit "
+        "superoperator sum in the oracle); non-trivial = at least two partitions or a barrier; distinct by payload")
 ASSUMPTIONS = ["QuantumCircuit.decompose (DAG round trip) may re-linearise instructions on disjoint wires: partition_problem subcircuits are compared per wire",
                "rustworkx.connected_components is modelled by label propagation", "uuid barrier tags are renamed by first occurrence",
                "T10.4 (`separate_recompose`) is proved for every semantics in which instructions on disjoint qubits commute and barriers do nothing "
@@ -137,7 +139,41 @@ def _bridge_barrier_cases():
                                      "always_oracle": True})
 
 
+def _operand_order_cases():
+    """Deterministic family (seed independent): ONE gate of every cuttable two-qubit family spans two partitions, written once with the
+    lower-index qubit as its first operand and once with the higher-index one (controlled and other non-symmetric gates -- cx, cy, ch, cs, csx,
+    crx, cry, crz, ecr, rzx, dcx -- as well as the exchange-symmetric ones), inside 2-4 qubit circuits, under labels in ascending and descending
+    order and under automatic labelling.  The placeholder halves must sit on the wires of the gate's operands such that the cut terms add up
+    to the gate that was written (operand order kept)."""
+    names = ([(g, []) for g in gen.FIXED_2Q] + [(g, [a]) for g, a in zip(gen.PARAM_2Q, [0.81, -0.37, 0.6, 1.3, 0.45, 0.9, -1.1, 0.53])]
+             + [("xx_plus_yy", [0.7, 0.3]), ("xx_minus_yy", [-0.4, 0.9]), ("unitary", [4711, 2])])
+    t = 0
+    for name, params in names:
+        for flip in (False, True):
+            t += 1
+            nq = 2 + t % 3
+            a, b = [(0, 1), (0, nq - 1), (nq - 2, nq - 1)][t % 3]
+            labels = [0 if q <= a else 1 for q in range(nq)]
+            if t % 4 >= 2:
+                labels = [1 - l for l in labels]     # the partition of the higher qubits comes first in label order
+            qs = [b, a] if flip else [a, b]
+            gate = {"name": name, "qubits": qs}
+            if params:
+                gate["params"] = list(params)
+            instrs = [{"name": "ry", "qubits": [q], "params": [0.3 + 0.2 * q]} for q in range(nq)]
+            # the partitions are connected inside (so that automatic labelling finds the same two)
+            instrs += [{"name": "cx", "qubits": [q, q + 1]} for q in range(nq - 1) if labels[q] == labels[q + 1]]
+            instrs += [gate, {"name": "h", "qubits": [qs[0]]}, {"name": "sx", "qubits": [qs[1]]}]
+            obs = [{"l": "ZXYZ"[:nq], "p": 0}, {"l": "XZIY"[:nq], "p": 0}]
+            auto = t % 5 == 0
+            kind = "partition_circuit_qubits" if t % 7 == 3 else "partition_problem"
+            yield (kind, {"nq": nq, "qregs": [nq], "instrs": instrs, "labels": None if auto and kind == "partition_problem" else labels,
+                          "pool_idx": [2, 5] if t % 2 else [0, 1], "obs": obs if kind == "partition_problem" else None, "bases": [],
+                          "cregs": [], "prewarm": False, "always_oracle": True})
+
+
 def cases(rng, tier):
+    yield from _operand_order_cases()
     yield from _bridge_barrier_cases()
     yield from _numbered_label_cases()
     N = 150 if tier == "quick" else 2500
@@ -373,6 +409,69 @@ def nontrivial_key(kind, payload):
     return hash(json.dumps([kind, payload], sort_keys=True, default=str))
 
 
+_MEANING = {}
+
+
+def _term_sum(basis, where):
+    """sum_k coeff_k * (operations of half 0 on local qubit where[0]) (x) (operations of half 1 on local qubit where[1]) as an exact
+    superoperator on two qubits; a QPDMeasure contributes rho -> P0 rho P0 - P1 rho P1 (the sign the reconstruction applies)"""
+    from qiskit.quantum_info import SuperOp
+    meas = SuperOp(np.kron(np.diag([1.0, 0.0]), np.diag([1.0, 0.0])) - np.kron(np.diag([0.0, 1.0]), np.diag([0.0, 1.0])))
+    total = np.zeros((16, 16), dtype=complex)
+    for coeff, term in zip(basis.coeffs, basis.maps):
+        s_ = SuperOp(np.eye(16))
+        for half, ops in enumerate(term):
+            for op in ops:
+                s_ = s_.compose(meas if op.name == "qpd_measure" else SuperOp(op), qargs=[where[half]])
+        total = total + coeff * s_.data
+    return total
+
+
+def _cut_meaning(qc_, pp, spanning, groups):
+    """for every cut: do the terms of bases[d], placed where the two halves of cut d sit, add up to the channel of the d-th spanning gate
+    acting on ITS operands in THEIR order?  (exact simulation on the two qubits of the gate; independent of the Lean model)"""
+    from qiskit.quantum_info import SuperOp, Operator
+    from qiskit_addon_cutting.qpd import SingleQubitQPDGate
+    where = {}
+    for key, sub in pp.subcircuits.items():
+        for inst in sub.data:
+            if isinstance(inst.operation, SingleQubitQPDGate):
+                suf = (inst.operation.label or "").rsplit("_", 1)
+                if len(suf) != 2 or not suf[1].isdigit():
+                    return None   # reported by the label clause
+                where.setdefault(int(suf[1]), {})[inst.operation.qubit_id] = groups[key][sub.find_bit(inst.qubits[0]).index]
+    for d, inst in enumerate(spanning):
+        q = [qc_.find_bit(x).index for x in inst.qubits]
+        w = where.get(d, {})
+        if sorted(w) != [0, 1]:
+            return None       # reported by the pairing clause
+        op = inst.operation
+        what = f"cut {d} replaces {op.name}{[float(x) if isinstance(x, (int, float)) else '..' for x in op.params][:2]} written on qubits {q} (first operand first)"
+        if sorted(w.values()) != sorted(q):
+            return f"{what}: its placeholder halves sit on qubits {[w[0], w[1]]}, not on the gate's qubits"
+        local = [q.index(w[0]), q.index(w[1])]
+        try:
+            if op.name == "qpd_2q":
+                key_ = None
+                want = _term_sum(op.basis, [0, 1])
+            else:
+                want = SuperOp(Operator(op)).data
+                key_ = (np.round(want, 9).tobytes(), json.dumps(canon.canon_basis(pp.bases[d]), sort_keys=True, default=str), tuple(local))
+            if key_ is not None and key_ in _MEANING:
+                err = _MEANING[key_]
+            else:
+                err = float(np.max(np.abs(_term_sum(pp.bases[d], local) - want)))
+                if key_ is not None and len(_MEANING) < 4096:
+                    _MEANING[key_] = err
+        except Exception:
+            continue          # an operation without an exact superoperator: no claim
+        if err > 1e-6:
+            return (f"{what}: half 0 of the placeholder sits on qubit {w[0]}, half 1 on qubit {w[1]}; with the halves there the terms of "
+                    f"bases[{d}] add up to a channel that differs from the gate's by {err:.3f} (largest matrix entry) -- the partitioned problem "
+                    f"no longer means the original circuit (operands exchanged?)")
+    return None
+
+
 def _oracle_partition_problem(payload, real, used):
     """is a refusal legitimate, and does an accepted request keep every used qubit and recombine its observables?"""
     nq, instrs, labs, obs = payload["nq"], payload["instrs"], payload["labels"], payload["obs"]
@@ -429,6 +528,19 @@ def _oracle_partition_problem(payload, real, used):
                 want = inst.operation.basis if inst.operation.name == "qpd_2q" else QPDBasis.from_instruction(inst.operation)
                 if canon.canon_basis(want) != canon.canon_basis(b):
                     return f"bases[{d}] is not the decomposition of the {d}-th spanning gate ({inst.operation.name}{list(inst.operation.params)})"
+            # ... and the halves sit where the gate's operands are, so that the cut terms add up to the gate as it was written
+            if labs is None:
+                roots_ = []
+                for q in range(nq):
+                    if eff[q] is not None and eff[q] not in roots_:
+                        roots_.append(eff[q])
+                groups = {k: [q for q in range(nq) if eff[q] == r] for k, r in enumerate(roots_)}
+            else:
+                groups = {key: [q for q in range(nq) if labels_[q] is not None and labels_[q] == key] for key in pp.subcircuits}
+            if all(key in groups and len(groups[key]) == sub.num_qubits for key, sub in pp.subcircuits.items()):
+                why = _cut_meaning(qc_, pp, spanning, groups)
+                if why:
+                    return why
     except ValueError:
         pass
     # the two halves of cut d carry the label suffix _d and the basis bases[d]
